@@ -351,6 +351,16 @@ def veq(a, b, fresh_int=None):
         if a.tag == 'vector' and b.tag == 'vector':
             from .vecmodel import vec_eq
             return vec_eq(a, b)
+        if a.tag == 'table' and b.tag == 'table':
+            ca, cb = a.fields.get('_underlying'), b.fields.get('_underlying')
+            if not isinstance(ca, VTuple) or not isinstance(cb, VTuple) or len(ca.items) != len(cb.items):
+                return z3.BoolVal(False)
+            from .vecmodel import vec_eq
+            conds = [veq(a.fields['_length'], b.fields['_length'])]
+            # column views: values, dtype, name (the row flag of a column is not part of a table's view)
+            for x, y in zip(ca.items, cb.items):
+                conds += [veq(x.fields[f], y.fields[f]) for f in ('_underlying', '_dtype', '_name')]
+            return z3.And(conds)
         return z3.BoolVal(a is b)
     if isinstance(a, VExc) or isinstance(b, VExc):
         return z3.BoolVal(a is b)
